@@ -36,13 +36,14 @@ func gcBackends() []gcBackend {
 }
 
 type gcRun struct {
-	r       *rep.Report
-	h       *gcHist
-	hi      int
-	be      gcBackend // backend of the history replay
-	gitLeg  bool
-	gitRuns *int
-	inits   map[string]*gcWorld // initial states, built once (templates, closed)
+	r            *rep.Report
+	h            *gcHist
+	hi           int
+	be           gcBackend // backend of the history replay
+	gitLeg       bool
+	gitRuns      *int
+	gitConfirmed *int                // divergences of the go-git leg in which git, too, lists index blobs it cannot find
+	inits        map[string]*gcWorld // initial states, built once (templates, closed)
 }
 
 // gcJob is one GC variant (index into h.Gcs) to run on a copy of the replayed repository opened with backend be.
@@ -302,10 +303,72 @@ func gitFsck(w *gcWorld) (bool, string) {
 	return err == nil, strings.TrimSpace(o + e)
 }
 
+// gitIndex is git's view of the index: `git ls-files -s` lines ("mode hash stage\tname").
+func gitIndex(w *gcWorld) ([]string, error) {
+	o, e, err := gitcli.Run(w.dir, nil, "ls-files", "-s")
+	if err != nil {
+		return nil, fmt.Errorf("git ls-files -s: %v %s", err, e)
+	}
+	o = strings.TrimSpace(o)
+	if o == "" {
+		return nil, nil
+	}
+	return strings.Split(o, "\n"), nil
+}
+
+// specIndexLines renders the abstract index the way `git ls-files -s` prints it.
+func specIndexLines(w *gcWorld, ix gcIdx) []string {
+	var out []string
+	for _, e := range w.indexOf(ix).Entries {
+		out = append(out, fmt.Sprintf("%06o %s %d\t%s", uint32(e.Mode), e.Hash, e.Stage, e.Name))
+	}
+	return out
+}
+
+// gitIndexBlobsMissing: which blobs named by git's own listing of the index (every stage) git cannot find.
+func gitIndexBlobsMissing(w *gcWorld) ([]string, error) {
+	lines, err := gitIndex(w)
+	if err != nil {
+		return nil, err
+	}
+	var in bytes.Buffer
+	var names []string
+	for _, l := range lines {
+		f := strings.Fields(l)
+		if len(f) < 4 || f[0] == "160000" {
+			continue
+		}
+		in.WriteString(f[1] + "\n")
+		names = append(names, l)
+	}
+	if len(names) == 0 {
+		return nil, nil
+	}
+	o, _, err := gitcli.Run(w.dir, in.Bytes(), "cat-file", "--batch-check")
+	if err != nil {
+		return nil, err
+	}
+	var miss []string
+	for i, l := range strings.Split(strings.TrimSpace(o), "\n") {
+		if strings.HasSuffix(l, " missing") && i < len(names) {
+			miss = append(miss, names[i])
+		}
+	}
+	return miss, nil
+}
+
 // gitWitness: git's own prune / repack keep everything the spec calls live (else the spec is wrong about git).
 func (g *gcRun) gitWitness(base *gcWorld, live []oid) error {
 	if ok, out := gitFsck(base); !ok {
 		return fmt.Errorf("git fsck rejects the replayed repository before GC: %s", out)
+	}
+	// git reads the replayed index exactly as the spec has it, conflict stages included
+	got, err := gitIndex(base)
+	if err != nil {
+		return err
+	}
+	if want := specIndexLines(base, g.h.Final.Idx); strings.Join(got, "|") != strings.Join(want, "|") {
+		return fmt.Errorf("git ls-files -s shows %q, the abstract index is %q", got, want)
 	}
 	*g.gitRuns += 1
 	for _, cmd := range [][]string{{"prune", "--expire=now"}, {"repack", "-a", "-d", "-q"}} {
@@ -447,6 +510,13 @@ func (g *gcRun) replay(jobs []gcJob) error {
 		keep := keepOids(h, v)
 		g.be, j.be = j.be, g.be // cases name the backend the GC ran on
 		div := g.check(w, v.Op, v.Rd, v.Age, keep, h.Live, h.Final, before, frame, gerr, nil)
+		if div && j.git {
+			// git as second observer of a loss go-git already showed: does its own index listing name missing blobs?
+			w.close()
+			if imiss, err := gitIndexBlobsMissing(w); err == nil && len(imiss) > 0 {
+				*g.gitConfirmed += 1
+			}
+		}
 		if !div && j.git {
 			w.close()
 			miss, err := gitMissing(w, keep)
@@ -455,7 +525,15 @@ func (g *gcRun) replay(jobs []gcJob) error {
 				return fail(len(h.Steps), err)
 			}
 			ok, out := gitFsck(w)
-			if len(miss) > 0 || !ok {
+			imiss, err := gitIndexBlobsMissing(w)
+			if err != nil {
+				w.destroy()
+				return fail(len(h.Steps), err)
+			}
+			if len(imiss) > 0 {
+				g.r.Diverge(opKey(v.Op, v.Age)+"|git-index-entry-blob-missing|"+stateFlags(h.Final, h.Live),
+					fmt.Sprintf("after %s git cannot find blobs its own `ls-files -s` lists: %v", v.Op, imiss), g.caseOf(map[string]any{"gc": v}))
+			} else if len(miss) > 0 || !ok {
 				g.r.Diverge(opKey(v.Op, v.Age)+"|git-cannot-read|"+stateFlags(h.Final, h.Live),
 					fmt.Sprintf("go-git reads every kept object after %s but git does not: missing %v; fsck: %s", v.Op, miss, out),
 					g.caseOf(map[string]any{"gc": v}))
@@ -503,7 +581,7 @@ func c22(args []string) error {
 	if gitSample > 0 && len(hs) > gitSample {
 		gitEvery = len(hs) / gitSample
 	}
-	gitRuns := 0
+	gitRuns, gitConfirmed := 0, 0
 	ops := map[string]int{}
 	inits := map[string]*gcWorld{}
 	for hi, h := range hs {
@@ -550,7 +628,7 @@ func c22(args []string) error {
 				jobs = append(jobs, gcJob{v: i, be: bes[3], git: true})
 			}
 		}
-		g := &gcRun{r: r, h: h, hi: hi, be: bes[0], gitRuns: &gitRuns, inits: inits}
+		g := &gcRun{r: r, h: h, hi: hi, be: bes[0], gitRuns: &gitRuns, gitConfirmed: &gitConfirmed, inits: inits}
 		if err := g.replay(jobs); err != nil {
 			return err
 		}
@@ -562,6 +640,7 @@ func c22(args []string) error {
 	r.Traces = len(hs)
 	r.Extra["git_leg_histories"] = gitRuns
 	r.Extra["git_leg"] = gitOn
+	r.Extra["git_confirms_index_blob_loss"] = gitConfirmed
 	r.Extra["gc_variants_per_state"] = perState
 	r.Extra["op_counts"] = ops
 	var bn []string
